@@ -153,3 +153,23 @@ Definition aes_parts (x : Z) : list Z :=
    m_mix_columns false x; m_mix_columns true x] ++ map (fun r => m_key_expansion x (rcon_int r)) (seq 0 10).
 Definition enc_sm_trace (ins : list sm_input) : list (list Z) := map pair2 (sm_run enc_sm_step sm_init ins).
 Definition dec_sm_trace (ins : list sm_input) : list (list Z) := map pair2 (sm_run dec_sm_step sm_init ins).
+
+(* compact summaries of state-machine traces for the harness (printing big numbers from Coq is
+   slow): 320-bit polynomial digest over all cycles (cycle = 2*text + ready), length, last cycle,
+   and the first 12 rising edges of ready with the text register there *)
+Definition sm_HM : Z := 0x9E3779B97F4A7C15F39CC0605CEDC8341082276BF3A27251F86C6A11D0C18E95.
+Definition sm_digest (l : list Z) : Z :=
+  fold_left (fun h v => Z.land (h * sm_HM + v + 1) (Z.ones 320)) l 0.
+Fixpoint sm_rises (n : nat) (prev idx : Z) (l : list Z) : list (list Z) :=
+  match l with
+  | [] => []
+  | v :: t =>
+      if Z.testbit v 0 && negb (Z.testbit prev 0) then
+        match n with O => [] | S n' => [idx; Z.shiftr v 1] :: sm_rises n' v (idx + 1) t end
+      else sm_rises n v (idx + 1) t
+  end.
+Definition sm_summary (tr : list (Z * Z)) : list (list Z) :=
+  let l := map (fun p => Z.shiftl (snd p) 1 + fst p) tr in
+  [sm_digest l; Z.of_nat (length l); last l 0] :: sm_rises 12 0 0 l.
+Definition enc_sm_sum (ins : list sm_input) : list (list Z) := sm_summary (sm_run enc_sm_step sm_init ins).
+Definition dec_sm_sum (ins : list sm_input) : list (list Z) := sm_summary (sm_run dec_sm_step sm_init ins).
